@@ -734,8 +734,9 @@ theorem flagsText_eq (ws : List Flag) :
     simp only [List.map_cons] at this
     simp [flagsText, lit, this]
 
-theorem FCol.render (ap : Bool) (ts : List Table) (ti ci : Nat) (s : FCol) (hok : s.ok ap) :
-    Dbml.renderColumn { tables := ts, allowProps := ap } ti ci s.col = .ok s.str := by
+theorem FCol.render (ap : Bool) (ts : List Table) (refs : List Ref) (ti ci : Nat) (s : FCol) (hok : s.ok ap)
+    (hni : ∀ r ∈ refs, r.inline = false) :
+    Dbml.renderColumn { tables := ts, refs := refs, allowProps := ap } ti ci s.col = .ok s.str := by
   have hnl := containsChar_plain s.note hok.notePlain
   have hprops : (if ap then s.props.map (fun (kv : Str × Str) => kv.1 ++ lit ": " ++ quoteString kv.2) else [])
       = (propFlags s.props).map Flag.text := by
@@ -773,10 +774,13 @@ theorem FCol.render (ap : Bool) (ts : List Table) (ti ci : Nat) (s : FCol) (hok 
     rw [ho, FCol.str, flagsText_eq]
     simp [FCol.col, Dbml.optComment, lit]
   unfold Dbml.renderColumn
-  have hty : Sql.typeText { tables := ts, allowProps := ap } s.col = .ok s.type := by
+  have hty : Sql.typeText { tables := ts, refs := refs, allowProps := ap } s.col = .ok s.type := by
     simp [Sql.typeText, FCol.col, pure, Except.pure]
-  have hin : Dbml.inlineRefsOfColumn { tables := ts, allowProps := ap } ti ci = [] := by
-    simp [Dbml.inlineRefsOfColumn]
+  have hin : Dbml.inlineRefsOfColumn { tables := ts, refs := refs, allowProps := ap } ti ci = [] := by
+    unfold Dbml.inlineRefsOfColumn
+    rw [List.filter_eq_nil_iff]
+    intro r hr
+    simp [hni r hr]
   simp only [hty, hin, List.mapM_nil, bind, Except.bind, pure, Except.pure]
   exact fin _ hopts
 
@@ -829,7 +833,7 @@ def flagForm : ColForm FCol where
     cases ps <;> cases e <;>
       simp_all [buildColumn, buildDefault, resolveType, resolveTypePure, buildNote, FCol.bp, FCol.col,
         bind, Except.bind, pure, Except.pure]
-  render := fun ap ts ti ci s hok => FCol.render ap ts ti ci s hok
+  render := fun ap ts refs ti ci s hok hni => FCol.render ap ts refs ti ci s hok hni
 
 /-- **C02 (and C15) for a table whose columns carry settings, end to end**: a database holding one table in schema
     public with any positive number of columns, each with a quoted name, a one-word type, ANY SUBSET of the settings
